@@ -22,6 +22,33 @@ def container_map(facts):
         blocks = set(f["name"] for f in c["fields"] if "MemoryBlock" in f["t"])
         if not blocks:
             raise AnalysisBroken("no memory-block members found in " + cls)
+        # members that cache addresses inside a block (row bases, ...): reading one is using the block it was filled from
+        cache_of = {}
+        others = set(f["name"] for f in c["fields"]) - blocks
+        if others:
+            for fn in facts.methods_of(cls):
+                b0 = tbf.body(fn)
+                if b0 is None:
+                    continue
+                dl = {v["did"]: v for v in walk(b0) if v.get("k") == "VarDecl"}
+
+                def blocks_in(e, depth=0):
+                    out_ = set()
+                    for z in walk(e):
+                        if z.get("k") == "MemberExpr" and z.get("name") in blocks:
+                            out_.add(z["name"])
+                        elif z.get("k") == "DeclRefExpr" and z.get("did") in dl and kids(dl[z["did"]]) and depth < 3:
+                            out_ |= blocks_in(kids(dl[z["did"]])[0], depth + 1)
+                    return out_
+                for x in walk(b0):
+                    if x.get("k") == "BinaryOperator" and x.get("op") == "=":
+                        l = strip(kids(x)[0])
+                        while l.get("k") in ("ArraySubscriptExpr", "CXXOperatorCallExpr") and len(kids(l)) >= 2:
+                            l = strip(kids(l)[-2])
+                        if l.get("k") == "MemberExpr" and l.get("name") in others:
+                            bs = blocks_in(kids(x)[1])
+                            if bs:
+                                cache_of.setdefault(l["name"], set()).update(bs)
         for fn in facts.methods_of(cls):
             if fn["kind"] != "CXXMethod":
                 continue
@@ -30,6 +57,10 @@ def container_map(facts):
             b = tbf.body(fn)
             tbf.link_parents(b)
             for x in walk(b):
+                if x.get("k") == "MemberExpr" and x.get("name") in cache_of and not any(a_.get("k") == "BinaryOperator" and a_.get("op") == "=" and any(z is x for z in walk(kids(a_)[0])) for a_ in tbf.ancestors(x)):
+                    used |= cache_of[x["name"]]
+                    if not fn.get("const"):
+                        wused |= cache_of[x["name"]]
                 if x.get("k") == "MemberExpr" and x.get("name") in blocks:
                     used.add(x["name"])
                     par = x.get("_p")
